@@ -17,8 +17,8 @@ def configs(tier):
 def run(tier, seed, jobs):
     cov, viol, harness = run_family(FAMILY, tier, configs(tier), jobs,
                                     max_execs=20000 if tier == "quick" else 30000, seed=seed,
-                                    budget=None if tier == "quick" else 10_000_000,
-                                    first_cap=1500)
+                                    budget=None if tier == "quick" else 4_000_000,
+                                    first_cap=500)
     cov["rule"] = (
         "scope-tree family plus residue programs (1-3 re-deliveries before exit, nested scope "
         "handing its count to the parent, asyncio.timeout around / inside / after AnyIO scopes "
